@@ -1414,10 +1414,24 @@ func c11Handlers(p *Prog, r *Report) {
 			}
 			if c, isCall := e.(*ast.CallExpr); isCall && p.callIs(fi.Pkg, c, kAdErr) {
 				if len(c.Args) == 1 {
-					if ac, ok := ast.Unparen(c.Args[0]).(*ast.CallExpr); ok && isFunc(info, ac, "fmt", "Errorf") {
-						if !strings.HasPrefix(valueKey(info, ac), "wrap:") {
-							return false, "the handler wraps the usecase error without %w before adapting it: the class is lost on the wire"
+					// the adapted value, or - for a variable - every definition that reaches here (the results of the
+					// spliced-in helpers included), must not be a wrap without %w
+					var lossy func(node int, a ast.Expr, d int) bool
+					lossy = func(node int, a ast.Expr, d int) bool {
+						if ac, ok := ast.Unparen(a).(*ast.CallExpr); ok && isFunc(info, ac, "fmt", "Errorf") {
+							return !strings.HasPrefix(valueKey(info, ac), "wrap:")
 						}
+						if o := objOf(info, a); o != nil && d < 4 {
+							for _, df := range f.ReachingDefs(node, o) {
+								if df.Rhs != nil && df.Node != node && lossy(df.Node, df.Rhs, d+1) {
+									return true
+								}
+							}
+						}
+						return false
+					}
+					if lossy(node, c.Args[0], 0) {
+						return false, "the handler wraps the usecase error without %w before adapting it: the class is lost on the wire"
 					}
 				}
 				return true, ""
@@ -1482,7 +1496,9 @@ func c11Handlers(p *Prog, r *Report) {
 			if isNilIdent(info, last) {
 				continue
 			}
-			n++
+			if i == 0 {
+				n++ // (the floor counts handlers with checked error returns: merging two returns into one is not a loss)
+			}
 			i++
 			cons := fmt.Sprintf("%s#error-return/%d", k, i)
 			if deferAdapter >= 0 && f.MustPrecede(map[int]bool{deferAdapter: true}, id) {
@@ -1501,7 +1517,7 @@ func c11Handlers(p *Prog, r *Report) {
 			r.Check(good, "C11.e", cons, p.pos(last), "adapter Error(...)", why)
 		}
 	}
-	r.Floor("C11.e", "handler-error-returns", n, 13)
+	r.Floor("C11.e", "handlers-with-error-returns", n, 7)
 }
 
 func c11Framing(p *Prog, r *Report) {
